@@ -29,6 +29,7 @@ from vp import common, coqrun
 from vp import docs19 as D
 
 STATIC = ["patch_flag_restored", "pages_sequence_flag", "patch_disables_documented_members",
+    "patch_disables_documented_members_declarative",
     "patch_other_statements_evaluate", "patch_keeps_documented_prefix", "patch_drops_nothing_documented",
     "patch_names_resolve", "reset_switches_on", "patch_parse_consistent_partial", "substitute_spec",
     "substitute_spec_swapped", "substitute_symbol_only", "substitute_latex_only", "substitute_none",
